@@ -338,7 +338,26 @@ pub fn unused_case(case: &J, events: &[J], tz: &TimeZone) -> Vec<J> {
         let mut path: Option<Vec<usize>> = None;
         find_stmt(&with_spans, ws, we, &mut vec![], &mut path);
         let Some(path) = path else {
-            out.push(json!({"e": "unjudged", "id": case["id"], "src": src, "msg": w.message, "why": "warning does not cover a whole statement"}));
+            // the warning covers a sub-expression (array element, object member, argument ...): cut its text out of the source,
+            // together with one neighbouring comma, and judge the edited text like a deleted statement (weak form: whenever the
+            // original succeeds the edited program must succeed with the same final event)
+            match textual_cut(case, &src, ws, we) {
+                Some((edited, eprog)) => {
+                    let mut runs = vec![];
+                    for e in events {
+                        let a = run_once(&c.program, &e["ev"], &e["meta"], &[], FaultMode::None, tz, false);
+                        let b = run_once(&eprog, &e["ev"], &e["meta"], &[], FaultMode::None, tz, false);
+                        runs.push(json!({"ev": e["ev"], "meta": e["meta"], "orig": a.end, "edit": b.end}));
+                    }
+                    // names the circumstance (not the verdict): the flagged text follows a closure-taking call on its line
+                    let line_start = src[..ws].rfind('\n').map_or(0, |i| i + 1);
+                    let desc = if src[line_start..ws].contains("-> |") { "sub-expression:after-closure-call" } else { "sub-expression" };
+                    out.push(json!({"e": "unused", "id": case["id"], "src": src, "edited": edited, "stmt": 0, "desc": desc,
+                                    "fal": true, "has_st": false, "msg": w.message, "runs": runs}));
+                }
+                None => out.push(json!({"e": "unjudged", "id": case["id"], "src": src, "msg": w.message,
+                                        "why": "warning does not cover a whole statement and the source without its span does not compile"})),
+            }
             continue;
         };
         let i = path[0];
@@ -381,6 +400,36 @@ pub fn unused_case(case: &J, events: &[J], tz: &TimeZone) -> Vec<J> {
         out.push(json!({"e": "nowarn", "id": case["id"], "src": src}));
     }
     out
+}
+
+/// The source without the bytes [ws, we) and one adjacent comma, compiled under the case's configuration.
+fn textual_cut(case: &J, src: &str, ws: usize, we: usize) -> Option<(String, Program)> {
+    if we > src.len() || ws > we || !src.is_char_boundary(ws) || !src.is_char_boundary(we) {
+        return None;
+    }
+    let (before, after) = (&src[..ws], &src[we..]);
+    let candidates = {
+        let mut v = vec![];
+        let at = after.trim_start();
+        if let Some(rest) = at.strip_prefix(',') {
+            v.push(format!("{before}{rest}"));
+        }
+        let bt = before.trim_end();
+        if let Some(rest) = bt.strip_suffix(',') {
+            v.push(format!("{rest}{after}"));
+        }
+        v.push(format!("{before}{after}"));
+        v
+    };
+    let fns = vrl::stdlib::all();
+    for edited in candidates {
+        let external = external_env(case);
+        let config = compile_config(case);
+        if let Ok(Ok(c)) = catch_unwind(AssertUnwindSafe(|| compile_with_external(&edited, &fns, &external, config))) {
+            return Some((edited, c.program));
+        }
+    }
+    None
 }
 
 /// Find a statement (element of the root list or of a block's `s` list with more than one
